@@ -71,8 +71,7 @@ def rule_cycle(G, E, R):
     R.check(not unresolved, rule, "parser", "every direct call in the parser was resolved to an instance", str(unresolved[:5]))
 
 
-def rule_span(E, R):
-    rule = "R05-span"
+def scan_spans(E, R, rule="R05-span"):
     n = 0
     for hb in E.hir_list:
         if "body" not in hb:
@@ -89,6 +88,12 @@ def rule_span(E, R):
                             "asserts that the span lies inside the input and panics", t["sp"])
             else:
                 R.ok(rule, p, "error span is derived from the input", where=t["sp"], nontrivial=False)
+    return n
+
+
+def rule_span(E, R):
+    rule = "R05-span"
+    n = scan_spans(E, R, rule)
     R.floor(rule, "(LexErrorKind, &str) error values built", n, 60)
     # ParseError::new callers
     callers = []
